@@ -1210,7 +1210,12 @@ func (p *Parser) relocateNamedObjects(objIndex uint32) parseResult {
 		// the scope. If the resolve succeeds, the object will be attached to the
 		// resolved parent and the namepath will be cleaned up.
 		if nameIndex = len(namepath) - amlNameLen; nameIndex > 0 {
-			targetIndex = p.objTree.Find(p.objTree.ClosestNamedAncestor(obj), namepath[:nameIndex])
+			// An absolute path does not depend on the scope the object is declared in
+			scopeIndex := p.objTree.ClosestNamedAncestor(obj)
+			if namepath[0] == '\\' {
+				scopeIndex = 0
+			}
+			targetIndex = p.objTree.Find(scopeIndex, namepath[:nameIndex])
 			if targetIndex == InvalidIndex {
 				if p.resolvePasses > maxResolvePasses {
 					kfmt.Fprintf(p.errWriter, "[table: %s, offset: 0x%x] unable to resolve relocation path %s for object of type %s after %d passes; aborting\n", p.tableName, obj.amlOffset, namepath[:], pOpcodeName(obj.opcode), p.resolvePasses)
